@@ -18,7 +18,7 @@ inductive Err
   | unknownMod | unknownModMass | invalidDeltaMass | invalidComp | deltaMassComp | invalidModMass
   | invalidChemFormula | invalidGlycanFormula
   | valueError | typeError | keyError
-  | hang          -- the Python loops forever (stray `]` in `_split_chem_formula`, empty glycan name)
+  | hang          -- the Python loops forever (an empty glycan name in the vocabulary)
 deriving DecidableEq, Repr
 
 deriving instance DecidableEq for Except
@@ -305,7 +305,7 @@ def splitChem : Bool → Str → Str → Except Err (List Str)
       match splitChem true [91] r with
       | .ok l => .ok (if acc.isEmpty then l else acc.reverse :: l)
       | .error e => .error e
-    else if c == 93 then .error .hang          -- stray ']' : the while loop never advances
+    else if c == 93 then .error .invalidChemFormula   -- stray ']' (since fix d3b6c8a; before: endless loop)
     else splitChem false (c :: acc) r
   | true, acc, c :: r =>
     if c == 93 then
